@@ -358,7 +358,17 @@ def _h_linked(interp, st, a):
                        _z3.And(_z3.Contains(ks.t, _z3.Unit(pname.t)), _z3.Select(mp.t, pname.t) == par.t)), "bool")
 
 
-PT_HOOKS = dict(TL_HOOKS, linked=_h_linked,
+def _h_rooted(interp, st, a):
+    """rooted(p, d): p is the default object type, or a child of it, or its name is registered in d (so that relinking finds a parent for it)"""
+    p, d = a
+    g = _z3.Const("G_ObjectType", _I)
+    par = interp.read_field(st, _Val(p.t, ("ref", "PDDLType")), "PDDLType", "parent")
+    nm = interp.read_field(st, _Val(p.t, ("ref", "PDDLType")), "PDDLType", "name")
+    ks = interp.read_field(st, d, "dict_PDDLType", "keys")
+    return _Val(_z3.Or(p.t == g, par.t == g, _z3.Contains(ks.t, _z3.Unit(nm.t))), "bool")
+
+
+PT_HOOKS = dict(TL_HOOKS, linked=_h_linked, rooted=_h_rooted,
                 lower=lambda interp, st, a: _Val(_z3.Function("str_lower", _S, _S)(a[0].t), "str"))
 _DECL = f"(tl_has(types, s, {_TN}) or tl_pend(types, s, {_TN}))"
 # (a name listed again without a parent at the end of the list is re-registered as a child of object: the later declaration wins)
@@ -386,6 +396,8 @@ CONTRACTS["lisp_parsers.domain_parser:DomainParser.parse_types"] = dict(
         f"forall_str(lambda s: implies({_DECL} and s != 'object', linked(result[s], result)))",
         # every registered object is registered under its own name
         "forall_str(lambda s: implies(s in result, result[s].name == s))",
+        # a type that only occurs as a parent (never declared itself) is registered as a child of the default object type
+        f"forall_str(lambda s: implies(s in result and not {_DECL} and s != 'object', result[s].parent is {_OBJ}))",
         # the module-level default type is not written
         f"{_OBJ}.name == old({_OBJ}.name)", f"{_OBJ}.parent is old({_OBJ}.parent)"],
     raises={"IndexError": f"tl_mark(types, {_TN})"},
@@ -398,6 +410,7 @@ CONTRACTS["lisp_parsers.domain_parser:DomainParser.parse_types"] = dict(
             "forall_str(lambda s: (s in pddl_types) == tl_has(types, s, index))",
             "forall_str(lambda s: implies(s in pddl_types, fresh(pddl_types[s]) and pddl_types[s].name == s and pddl_types[s].parent != None and "
             "fresh(pddl_types[s].parent) and pddl_types[s].parent.name == tl_type(types, s, index)))",
+            "forall_str(lambda s: implies(s in pddl_types, rooted(pddl_types[s].parent, pddl_types)))",
             f"{_OBJ}.name == old({_OBJ}.name)", f"{_OBJ}.parent is old({_OBJ}.parent)"],
             modifies=["dict_PDDLType.keys[pddl_types]", "dict_PDDLType.map[pddl_types]", "PDDLType.name", "PDDLType.parent"]),
         1: dict(invariants=[
@@ -407,6 +420,7 @@ CONTRACTS["lisp_parsers.domain_parser:DomainParser.parse_types"] = dict(
             f"forall_str(lambda s: implies({_DECL}, at_loop_entry(s in pddl_types and fresh(pddl_types[s]) and pddl_types[s].name == s and " + _PARENT_NAME.format(v="pddl_types[s]") + ")))",
             "forall_str(lambda s: implies(at_loop_entry(s in pddl_types), exists_int(lambda j: _seq[j] is at_loop_entry(pddl_types[s]), 0, len(_seq))))",
             "forall_int(lambda j: at_loop_entry(fresh(_seq[j])), 0, len(_seq))",
+            f"forall_str(lambda s: implies(at_loop_entry(s in pddl_types), {_DECL} and at_loop_entry(rooted(pddl_types[s].parent, pddl_types))))",
             # the dictionary only grows: entries present at loop entry stay what they were
             "forall_str(lambda s: implies(at_loop_entry(s in pddl_types), s in pddl_types and pddl_types[s] is at_loop_entry(pddl_types[s])))",
             # registered objects carry the name they are registered under
@@ -414,6 +428,10 @@ CONTRACTS["lisp_parsers.domain_parser:DomainParser.parse_types"] = dict(
             # relinking replaces a parent only by an object of the same name
             "forall_ref(lambda x: (x.parent == None) == at_loop_entry(x.parent == None) and implies(x.parent != None, x.parent.name == at_loop_entry(x.parent.name)) "
             "and implies(at_loop_entry(x.parent != None and x.parent.name == 'object'), x.parent is at_loop_entry(x.parent)), 'PDDLType')",
+            # a parent is what it was at loop entry unless it has been relinked to the object registered under its name
+            "forall_ref(lambda x: x.parent is at_loop_entry(x.parent) or (x.parent != None and x.parent.name in pddl_types and pddl_types[x.parent.name] is x.parent), 'PDDLType')",
+            # what the relink loop registers in addition are children of the default object type
+            f"forall_str(lambda s: implies(s in pddl_types and not at_loop_entry(s in pddl_types), pddl_types[s].parent is {_OBJ}))",
             # the snapshot objects visited so far are linked
             "forall_int(lambda j: linked(_seq[j], pddl_types), 0, _i)",
             f"{_OBJ}.name == old({_OBJ}.name)", f"{_OBJ}.parent is old({_OBJ}.parent)"],
